@@ -564,26 +564,9 @@ func Replay(t *testing.T, rep *kit.Report, beh kit.V, w *World, ad Adapter, labe
 	w.mu.Lock()
 	w.Done = true
 	w.mu.Unlock()
-	ids := make([]int, 0)
-	for id := range w.Members {
-		ids = append(ids, id)
-	}
-	sort.Ints(ids)
-	for _, id := range ids {
-		m := w.M(id)
-		x := m.snap()
-		if !x.started || x.returned {
-			continue
-		}
-		n0 := x.nsub
-		if ad.Deliver(id, true) {
-			Settle(func() bool { return m.snap().returned })
-			if y := m.snap(); y.nsub > n0 && !diverged {
-				diverged = true
-				rep.Diverge(proto+":submit-after-observe", fmt.Sprintf("member %d submitted after it was told that somebody "+
-					"else succeeded (end of behaviour)", id), caseID(len(steps)-1), nil, y.submits)
-			}
-		}
+	if msg := finishAll(w, ad); msg != "" && !diverged {
+		diverged = true
+		rep.Diverge(proto+":"+msg[:strIndex(msg, ' ')], msg[strIndex(msg, ' ')+1:]+" (end of behaviour)", caseID(len(steps)-1), nil, nil)
 	}
 	ad.Close()
 	return rep.NDivergences() - before
@@ -703,18 +686,64 @@ func ReplaySlots(t *testing.T, rep *kit.Report, c kit.V, w *World, ad Adapter) {
 	w.mu.Lock()
 	w.Done = true
 	w.mu.Unlock()
-	for i := 1; i <= n; i++ {
-		m := w.M(i)
-		if x := m.snap(); x.started && !x.returned {
-			n0 := x.nsub
-			if ad.Deliver(i, true) {
-				Settle(func() bool { return m.snap().returned })
-				if m.snap().nsub > n0 {
-					rep.Diverge(fmt.Sprintf("%s:submit-after-observe:%s,i=%d", proto, id, i),
-						fmt.Sprintf("%s: member %d submitted after it was told that somebody else succeeded", proto, i), cs.X, nil, nil)
-				}
-			}
-		}
+	if msg := finishAll(w, ad); msg != "" {
+		rep.Diverge(fmt.Sprintf("%s:%s:%s", proto, msg[:strIndex(msg, ' ')], id), proto+": "+msg[strIndex(msg, ' ')+1:], cs.X, nil, nil)
 	}
 	ad.Close()
+}
+
+func strIndex(s string, c byte) int {
+	for i := 0; i < len(s); i++ {
+		if s[i] == c {
+			return i
+		}
+	}
+	return len(s) - 1
+}
+
+// finishAll tells every member that still runs that somebody succeeded and
+// waits for all of them together. It returns "" or "<key> <description>" of
+// the first misbehaviour: a submission after the event, or a member that
+// consumed the event and keeps running. Members that keep running are given
+// the timeout (relay entry) so that their goroutines end.
+func finishAll(w *World, ad Adapter) string {
+	ids := make([]int, 0, len(w.Members))
+	for id := range w.Members {
+		ids = append(ids, id)
+	}
+	sort.Ints(ids)
+	n0 := map[int]int{}
+	var told []int
+	for _, id := range ids {
+		x := w.M(id).snap()
+		if !x.started || x.returned {
+			continue
+		}
+		n0[id] = x.nsub
+		if ad.Deliver(id, true) {
+			told = append(told, id)
+		}
+	}
+	Settle(func() bool {
+		for _, id := range told {
+			if !w.M(id).snap().returned {
+				return false
+			}
+		}
+		return true
+	})
+	msg := ""
+	for _, id := range told {
+		y := w.M(id).snap()
+		if y.nsub > n0[id] && msg == "" {
+			msg = fmt.Sprintf("submit-after-observe member %d submitted after it was told that somebody else succeeded", id)
+		}
+		if !y.returned {
+			if msg == "" {
+				msg = fmt.Sprintf("observe-no-exit member %d consumed the event that somebody else succeeded and keeps running", id)
+			}
+			ad.Timeout(id)
+		}
+	}
+	return msg
 }
